@@ -240,6 +240,10 @@ class Pipe:
             self.crops += 1
         check_clock(y, self.T, self.r, newL, self.nops, self.off, self.nsteps, f"op{self.nops}:{what}")
         check(type(y) is type(self.z), "{}: type changed to {}", what, type(y).__name__)
+        if dropped == 0 and newL > 0 and self.z.start_time is not None and y.start_time is not None and what.startswith(("slice", "fast_len")):
+            # nothing dropped at the front: the retained samples keep their timestamps to the last bit (no Time arithmetic to round)
+            check(O.T(y.start_time) == O.T(self.z.start_time), "{}: no leading sample was dropped but the start time moved by {:.3g} s", what,
+                  float(O.T(y.start_time) - O.T(self.z.start_time)))
         self.z = y
         if self.exp is not None and newL > 0:
             got = np.asarray(y.data.real, dtype=np.float64)
